@@ -1090,3 +1090,29 @@ package ecs
 //@   inv forall k int :: {add[k]} 0 <= k && k < len(add) ==> (old(bitU(mask, add[k].id)) && !idsHave(rem, len(rem), add[k].id) ==> bitU(mask, add[k].id))
 //@   inv forall k int :: {add[k]} 0 <= k && k < $i ==> !old(bitU(mask, add[k].id)) || idsHave(rem, len(rem), add[k].id)
 //@   inv forall j int, k int :: {add[j], add[k]} 0 <= j && j < k && k < $i ==> add[j].id != add[k].id
+
+// ---- C05 / C10: relation component checks ---------------------------------------------------------
+//@ uf hasCompU(a *archetypeAccess, id uint8) bool
+//@ func archetypeAccess.HasComponent(a, id) (r)
+//@   flag trusted
+//@   ensures r == hasCompU(a, id.id)
+
+//@ func World.relationError(w, arch, comp)
+//@   props C10
+//@   requires arch != nil && len(w.registry.Types) == MaskTotalBits && validID(comp.id)
+//@   panics_if true
+//@   flag panic_clean
+
+// checkRelation returns normally only for the relation component of a table that has one.
+//@ func World.checkRelation(w, arch, comp)
+//@   props C05 C10
+//@   requires arch != nil && arch.node != nil && len(w.registry.Types) == MaskTotalBits && validID(comp.id)
+//@   panics_if !(arch.node.HasRelation && arch.node.Relation.id == comp.id)
+//@   flag panic_clean
+
+//@ func Query.Relation(q, comp) (r)
+//@   props C05 C10
+//@   requires q.access != nil && q.world != nil && len(q.world.registry.Types) == MaskTotalBits && validID(comp.id)
+//@   panics_if !(q.access.HasRelationComponent && q.access.RelationComponent.id == comp.id)
+//@   flag panic_clean
+//@   ensures r == q.access.RelationTarget
